@@ -532,31 +532,53 @@ func chainConcatOrder(c *core.Ctx) {
 	ctorFn := info.Defs[ctor.Name]
 	// chainWith = the method (on an option type with a []Interceptor field) that calls the constructor
 	ic := p.Named(core.ConnectPath, "Interceptor")
+	// chainWith: the function (a method of the option type, or a plain function that was given the
+	// option's list as a parameter; a helper that was inlined elsewhere still counts) that takes the
+	// current Interceptor, returns an Interceptor and calls the chain constructor
 	var cw *ast.FuncDecl
-	for _, fd := range p.AllFuncDecls(p.Connect) {
-		if fd.Recv == nil || fd == ctor {
+	var cur types.Object
+	var listParam types.Object
+	for _, fd := range p.AllFuncDeclsRaw(p.Connect) {
+		if fd == ctor {
 			continue
 		}
 		sig := info.Defs[fd.Name].(*types.Func).Type().(*types.Signature)
-		if sig.Params().Len() != 1 || sig.Results().Len() != 1 || !types.Identical(sig.Params().At(0).Type(), ic) || !types.Identical(sig.Results().At(0).Type(), ic) {
+		if sig.Results().Len() != 1 || !types.Identical(sig.Results().At(0).Type(), ic) {
+			continue
+		}
+		var curP, listP types.Object
+		nIC := 0
+		for i := 0; i < sig.Params().Len(); i++ {
+			pt := sig.Params().At(i).Type()
+			if types.Identical(pt, ic) {
+				curP = sig.Params().At(i)
+				nIC++
+			}
+			if sl, ok := pt.Underlying().(*types.Slice); ok && types.Identical(sl.Elem(), ic) {
+				listP = sig.Params().At(i)
+			}
+		}
+		if nIC != 1 || (fd.Recv == nil && listP == nil) {
 			continue
 		}
 		for _, call := range astx.Calls(fd.Body) {
 			if astx.Callee(info, call) == ctorFn {
-				cw = fd
+				cw, cur, listParam = fd, curP, listP
 			}
 		}
 	}
 	if cw == nil {
-		c.Unresolved("chainWith", "no method (Interceptor) Interceptor calling %s", ctor.Name.Name)
+		c.Unresolved("chainWith", "no function (…Interceptor…) Interceptor calling %s", ctor.Name.Name)
 		return
 	}
-	cur := info.Defs[cw.Type.Params.List[0].Names[0]]
-	// the option's list: a []Interceptor field of the receiver
+	// the option's list: a []Interceptor field of the receiver, or the list parameter
 	recv := recvObj(info, cw)
 	isList := func(e ast.Expr) bool {
+		if listParam != nil && astx.ObjOf(info, astx.Unparen(e)) == listParam {
+			return true
+		}
 		s, ok := astx.Unparen(e).(*ast.SelectorExpr)
-		if !ok || astx.ObjOf(info, s.X) != recv {
+		if !ok || recv == nil || astx.ObjOf(info, s.X) != recv {
 			return false
 		}
 		f := astx.FieldOf(info, s)
@@ -706,7 +728,11 @@ func chainConcatOrder(c *core.Ctx) {
 			c.Check(okStore, key, call.Pos(), "result of chainWith(config.X) is stored back into config.X")
 		}
 	}
-	c.Floor("chainWith call sites", n, 2)
+	if n == 0 && !containsDecl(p.AllFuncDecls(p.Connect), cw) {
+		c.Ok("apply/inlined", cw.Pos(), "%s is a helper outside the inventory and was inlined into its callers: call sites are analysed in place", cw.Name.Name)
+	} else {
+		c.Floor("chainWith call sites", n, 2)
+	}
 
 	// combinators and constructors: `for _, opt := range opts { opt.applyToX(cfg) }` ascending, unconditional
 	m := 0
@@ -928,4 +954,13 @@ func enclosingIfs(body *ast.BlockStmt, n ast.Node) []*ast.IfStmt {
 		return true
 	})
 	return out
+}
+
+func containsDecl(list []*ast.FuncDecl, fd *ast.FuncDecl) bool {
+	for _, x := range list {
+		if x == fd {
+			return true
+		}
+	}
+	return false
 }
